@@ -183,35 +183,82 @@ theorem applyTx_accounts {st st' : Store} (hw : Map.WF st.accounts) (t : TxIn) (
         rw [hmem2]; intro h; exact hk h.1
       rw [if_neg hn2, if_neg hi, if_neg hinv]
 
-theorem datesOf_snoc (h : List TxIn) (t : TxIn) (a : String) : datesOf (h ++ [t]) a = datesStep a (datesOf h a) t := by
-  simp [datesOf, List.foldl_append]
+theorem upsertAccount_none_spec {m : Map String AccountRow} (hw : Map.WF m) (a : String) (date : Int) (md : Metadata) :
+    Map.WF (upsertAccount m a none date md) ∧
+    ∀ b, datesAt (upsertAccount m a none date md) b =
+      if b = a then (match datesAt m a with | none => some (date, date) | some c => some c) else datesAt m b := by
+  unfold upsertAccount
+  cases hg : m.get? a with
+  | none =>
+    simp only []
+    refine ⟨Map.WF_insertWith _ _ _ hw, ?_⟩
+    intro b
+    unfold datesAt Map.insert
+    rw [Map.get?_insertWith _ _ _ hw, hg]
+    by_cases hb : b = a
+    · simp [hb, AccountRow.dates]
+    · simp [hb]
+  | some r =>
+    simp only []
+    by_cases hc : ((false) || !metaContains r.metadata md) = true
+    · rw [if_pos hc]
+      refine ⟨Map.WF_insertWith _ _ _ hw, ?_⟩
+      intro b
+      unfold datesAt Map.insert
+      rw [Map.get?_insertWith _ _ _ hw, hg]
+      by_cases hb : b = a
+      · simp [hb, AccountRow.dates]
+      · simp [hb]
+    · rw [if_neg hc]
+      refine ⟨hw, ?_⟩
+      intro b
+      by_cases hb : b = a
+      · subst hb; simp [datesAt, hg]
+      · simp [hb]
 
-/-- accounts invariant relative to the committed prefix `h` -/
-structure AccountsInv (st : Store) (h : List TxIn) : Prop where
+theorem datesOfOps_snoc (ops : List StoreOp) (o : StoreOp) (a : String) :
+    datesOfOps (ops ++ [o]) a = accountEventStep a (datesOfOps ops a) o := by
+  simp [datesOfOps, List.foldl_append]
+
+/-- accounts invariant relative to the prefix of operations already applied -/
+structure AccountsInv (st : Store) (done : List StoreOp) : Prop where
   wf : Map.WF st.accounts
-  dates : ∀ a, datesAt st.accounts a = datesOf h a
+  dates : ∀ a, datesAt st.accounts a = datesOfOps done a
 
-theorem AccountsInv_applyOp {st st' : Store} {h : List TxIn} (inv : AccountsInv st h) (o : StoreOp)
-    (ho : applyOp st o = .ok st') : AccountsInv st' (h ++ commitsOf [o]) := by
+theorem AccountsInv_applyOp {st st' : Store} {done : List StoreOp} (inv : AccountsInv st done) (o : StoreOp)
+    (ho : applyOp st o = .ok st') : AccountsInv st' (done ++ [o]) := by
   cases o with
   | commit t =>
     simp only [applyOp] at ho
     obtain ⟨hw, hd⟩ := applyTx_accounts inv.wf t ho
     refine ⟨hw, ?_⟩
     intro a
-    simp only [commitsOf]
-    rw [hd a, inv.dates a, datesOf_snoc]
+    rw [hd a, inv.dates a, datesOfOps_snoc]; rfl
   | lock keys =>
     simp only [applyOp] at ho; cases ho
-    simp only [commitsOf, List.append_nil]; exact ⟨inv.wf, inv.dates⟩
+    exact ⟨inv.wf, fun a => by rw [datesOfOps_snoc]; exact inv.dates a⟩
   | markReverted id a =>
     simp only [applyOp] at ho; cases ho
-    simp only [commitsOf, List.append_nil]; exact ⟨inv.wf, inv.dates⟩
+    exact ⟨inv.wf, fun b => by rw [datesOfOps_snoc]; exact inv.dates b⟩
+  | saveAccountMeta a at_ md =>
+    simp only [applyOp] at ho; cases ho
+    obtain ⟨hw, hd⟩ := upsertAccount_none_spec inv.wf a at_ md
+    refine ⟨hw, ?_⟩
+    intro b
+    rw [datesOfOps_snoc]
+    simp only [accountEventStep]
+    rw [hd b]
+    by_cases hb : b = a
+    · subst hb
+      simp only [if_true, inv.dates b]
+      cases datesOfOps done b <;> rfl
+    · have : ¬ a = b := fun e => hb e.symm
+      simp [hb, this, inv.dates b]
 
-theorem AccountsInv_runOpsFrom (ops : List StoreOp) {st st' : Store} {h : List TxIn} (inv : AccountsInv st h)
-    (hr : runOpsFrom st ops = .ok st') : AccountsInv st' (h ++ commitsOf ops) := by
-  induction ops generalizing st h with
-  | nil => simp only [runOpsFrom] at hr; cases hr; simpa [commitsOf] using inv
+theorem AccountsInv_runOpsFrom (ops : List StoreOp) {st st' : Store} {done : List StoreOp} (inv : AccountsInv st done)
+    (hr : runOpsFrom st ops = .ok st') : AccountsInv st' (done ++ ops) := by
+  induction ops generalizing st done with
+  | nil => simp only [runOpsFrom] at hr; cases hr; simpa using inv
   | cons o os ih =>
     simp only [runOpsFrom] at hr
     cases h1 : applyOp st o with
@@ -219,70 +266,112 @@ theorem AccountsInv_runOpsFrom (ops : List StoreOp) {st st' : Store} {h : List T
     | ok s1 =>
       rw [h1] at hr
       have := ih (AccountsInv_applyOp inv o h1) hr
-      rw [commitsOf_cons, ← List.append_assoc]
-      exact this
+      simpa [List.append_assoc] using this
 
 theorem AccountsInv_runOps {ops : List StoreOp} {st : Store} (h : runOps ops = .ok st) :
-    AccountsInv st (commitsOf ops) := by
-  have := AccountsInv_runOpsFrom ops (h := []) ⟨Map.WF_nil, fun a => rfl⟩ h
+    AccountsInv st ops := by
+  have := AccountsInv_runOpsFrom ops (done := []) ⟨Map.WF_nil, fun a => rfl⟩ h
   simpa using this
 
 /-! ### consequences of the fold -/
 
-theorem foldl_datesStep_none_iff (h : List TxIn) (a : String) (cur : Option (Int × Int)) :
-    h.foldl (datesStep a) cur = none ↔ (cur = none ∧ ∀ t ∈ h, t.involves a = false) := by
-  induction h generalizing cur with
+theorem accountEventStep_untouched {a : String} {o : StoreOp} (h : o.touches a = false) (cur : Option (Int × Int)) :
+    accountEventStep a cur o = cur := by
+  cases o with
+  | commit t =>
+    simp only [StoreOp.touches] at h
+    simp [accountEventStep, datesStep, h]
+  | saveAccountMeta a' at_ md =>
+    simp only [StoreOp.touches, beq_eq_false_iff_ne, ne_eq] at h
+    simp [accountEventStep, h]
+  | lock keys => rfl
+  | markReverted id x => rfl
+
+theorem accountEventStep_touched_isSome {a : String} {o : StoreOp} (h : o.touches a = true) (cur : Option (Int × Int)) :
+    (accountEventStep a cur o).isSome = true := by
+  cases o with
+  | commit t =>
+    simp only [StoreOp.touches] at h
+    cases cur with
+    | none => simp [accountEventStep, datesStep, h]
+    | some p => obtain ⟨f, i⟩ := p; simp [accountEventStep, datesStep, h]
+  | saveAccountMeta a' at_ md =>
+    simp only [StoreOp.touches, beq_iff_eq] at h
+    cases cur <;> simp [accountEventStep, h]
+  | lock keys => simp [StoreOp.touches] at h
+  | markReverted id x => simp [StoreOp.touches] at h
+
+theorem foldl_accountEventStep_isSome (a : String) (ops : List StoreOp) (cur : Option (Int × Int)) (h : cur.isSome = true) :
+    (ops.foldl (accountEventStep a) cur).isSome = true := by
+  induction ops generalizing cur with
+  | nil => exact h
+  | cons o ops ih =>
+    simp only [List.foldl_cons]
+    apply ih
+    by_cases ht : o.touches a = true
+    · exact accountEventStep_touched_isSome ht cur
+    · rw [accountEventStep_untouched (by simpa using ht)]; exact h
+
+theorem foldl_accountEventStep_none_iff (a : String) (ops : List StoreOp) (cur : Option (Int × Int)) :
+    ops.foldl (accountEventStep a) cur = none ↔ (cur = none ∧ ∀ o ∈ ops, o.touches a = false) := by
+  induction ops generalizing cur with
   | nil => simp
-  | cons t h ih =>
+  | cons o ops ih =>
     simp only [List.foldl_cons]
     rw [ih]
-    unfold datesStep
-    by_cases hi : t.involves a = true
-    · rw [if_pos hi]
-      constructor
+    by_cases ht : o.touches a = true
+    · constructor
       · rintro ⟨hn, _⟩
-        cases cur with
-        | none => simp at hn
-        | some p => simp at hn
+        have := accountEventStep_touched_isSome ht cur
+        rw [hn] at this; simp at this
       · rintro ⟨_, hall⟩
-        have := hall t List.mem_cons_self
-        rw [hi] at this; simp at this
-    · rw [if_neg hi]
+        have := hall o List.mem_cons_self
+        rw [ht] at this; simp at this
+    · have hf : o.touches a = false := by simpa using ht
+      rw [accountEventStep_untouched hf]
       constructor
       · rintro ⟨hn, hall⟩
         refine ⟨hn, ?_⟩
         intro x hx
         rcases List.mem_cons.mp hx with rfl | hx
-        · simpa using hi
+        · exact hf
         · exact hall x hx
       · rintro ⟨hn, hall⟩
         exact ⟨hn, fun x hx => hall x (List.mem_cons_of_mem _ hx)⟩
 
-theorem datesOf_none_iff (h : List TxIn) (a : String) : datesOf h a = none ↔ ∀ t ∈ h, t.involves a = false := by
-  unfold datesOf
-  rw [foldl_datesStep_none_iff]
+theorem datesOfOps_none_iff (ops : List StoreOp) (a : String) : datesOfOps ops a = none ↔ ∀ o ∈ ops, o.touches a = false := by
+  unfold datesOfOps
+  rw [foldl_accountEventStep_none_iff]
   simp
 
-/-- first usage never goes up, insertion date never changes, once the account exists -/
-theorem datesStep_mono (a : String) (fu ins : Int) (t : TxIn) :
-    ∃ fu', datesStep a (some (fu, ins)) t = some (fu', ins) ∧ fu' ≤ fu ∧
-      (t.involves a = true → fu' ≤ t.timestamp) := by
-  unfold datesStep
-  by_cases hi : t.involves a = true
-  · rw [if_pos hi]
-    by_cases hlt : t.timestamp < fu
-    · exact ⟨t.timestamp, by simp [hlt], by omega, fun _ => by omega⟩
-    · exact ⟨fu, by simp [hlt], by omega, fun _ => by omega⟩
-  · rw [if_neg hi]
-    exact ⟨fu, rfl, by omega, fun h => absurd h hi⟩
+/-- one more operation on an existing account: first usage never goes up, insertion date never changes -/
+theorem accountEventStep_mono (a : String) (fu ins : Int) (o : StoreOp) :
+    ∃ fu', accountEventStep a (some (fu, ins)) o = some (fu', ins) ∧ fu' ≤ fu ∧
+      (∀ t, o = .commit t → t.involves a = true → fu' ≤ t.timestamp) := by
+  cases o with
+  | commit t =>
+    simp only [accountEventStep, datesStep]
+    by_cases hi : t.involves a = true
+    · rw [if_pos hi]
+      by_cases hlt : t.timestamp < fu
+      · refine ⟨t.timestamp, by simp [hlt], by omega, ?_⟩
+        intro t' ht' _; cases ht'; omega
+      · refine ⟨fu, by simp [hlt], by omega, ?_⟩
+        intro t' ht' _; cases ht'; omega
+    · rw [if_neg hi]
+      refine ⟨fu, rfl, by omega, ?_⟩
+      intro t' ht' hi'; cases ht'; exact absurd hi' hi
+  | saveAccountMeta a' at_ md =>
+    refine ⟨fu, ?_, by omega, fun t ht => by cases ht⟩
+    simp only [accountEventStep]; split <;> rfl
+  | lock keys => exact ⟨fu, rfl, by omega, fun t ht => by cases ht⟩
+  | markReverted id x => exact ⟨fu, rfl, by omega, fun t ht => by cases ht⟩
 
-
-/-- the fold's first usage is a lower bound of the timestamps of the involving transactions
-    (and of the starting value) -/
-theorem foldl_datesStep_bound (a : String) (h : List TxIn) (cur : Option (Int × Int)) (fu ins : Int)
-    (hr : h.foldl (datesStep a) cur = some (fu, ins)) :
-    (∀ t ∈ h, t.involves a = true → fu ≤ t.timestamp) ∧ (∀ f0 i0, cur = some (f0, i0) → fu ≤ f0) := by
-  induction h generalizing cur with
+/-- the fold's first usage is a lower bound of the timestamps of the involving commits (and of the start) -/
+theorem foldl_accountEventStep_bound (a : String) (ops : List StoreOp) (cur : Option (Int × Int)) (fu ins : Int)
+    (hr : ops.foldl (accountEventStep a) cur = some (fu, ins)) :
+    (∀ t, StoreOp.commit t ∈ ops → t.involves a = true → fu ≤ t.timestamp) ∧ (∀ f0 i0, cur = some (f0, i0) → fu ≤ f0) := by
+  induction ops generalizing cur with
   | nil =>
     simp only [List.foldl_nil] at hr
     refine ⟨fun t ht => by simp at ht, ?_⟩
@@ -290,65 +379,74 @@ theorem foldl_datesStep_bound (a : String) (h : List TxIn) (cur : Option (Int ×
     rw [hc] at hr
     simp only [Option.some.injEq, Prod.mk.injEq] at hr
     omega
-  | cons t h ih =>
+  | cons o ops ih =>
     simp only [List.foldl_cons] at hr
     obtain ⟨h1, h2⟩ := ih _ hr
-    by_cases hi : t.involves a = true
-    · cases cur with
-      | none =>
-        have hs : datesStep a none t = some (t.timestamp, t.insertedAt) := by simp [datesStep, hi]
-        have hb := h2 _ _ hs
-        refine ⟨?_, fun f0 i0 hc => by simp at hc⟩
-        intro x hx hxi
-        rcases List.mem_cons.mp hx with rfl | hx
-        · exact hb
-        · exact h1 x hx hxi
-      | some p =>
-        obtain ⟨f0, i0⟩ := p
-        have hs : datesStep a (some (f0, i0)) t = some (if t.timestamp < f0 then t.timestamp else f0, i0) := by
-          simp [datesStep, hi]
-        have hb := h2 _ _ hs
-        refine ⟨?_, ?_⟩
-        · intro x hx hxi
-          rcases List.mem_cons.mp hx with rfl | hx
-          · split at hb <;> omega
-          · exact h1 x hx hxi
-        · intro f1 i1 hc
-          simp only [Option.some.injEq, Prod.mk.injEq] at hc
-          split at hb <;> omega
-    · have hs : datesStep a cur t = cur := by simp [datesStep, hi]
-      rw [hs] at h2
-      refine ⟨?_, h2⟩
-      intro x hx hxi
-      rcases List.mem_cons.mp hx with rfl | hx
-      · exact absurd hxi hi
-      · exact h1 x hx hxi
+    cases cur with
+    | some p =>
+      obtain ⟨f0, i0⟩ := p
+      obtain ⟨fu', hs, hle, hb⟩ := accountEventStep_mono a f0 i0 o
+      have hfu := h2 _ _ hs
+      refine ⟨?_, ?_⟩
+      · intro t ht hti
+        rcases List.mem_cons.mp ht with rfl | ht
+        · have := hb t rfl hti; omega
+        · exact h1 t ht hti
+      · intro f1 i1 hc
+        simp only [Option.some.injEq, Prod.mk.injEq] at hc
+        omega
+    | none =>
+      refine ⟨?_, fun f0 i0 hc => by simp at hc⟩
+      intro t ht hti
+      rcases List.mem_cons.mp ht with rfl | ht
+      · have hs : accountEventStep a none (.commit t) = some (t.timestamp, t.insertedAt) := by
+          simp [accountEventStep, datesStep, hti]
+        exact h2 _ _ hs
+      · exact h1 t ht hti
 
-/-- … and it is attained -/
-theorem foldl_datesStep_attained (a : String) (h : List TxIn) (cur : Option (Int × Int)) (fu ins : Int)
-    (hr : h.foldl (datesStep a) cur = some (fu, ins)) :
-    (∃ t ∈ h, t.involves a = true ∧ t.timestamp = fu) ∨ (∃ i0, cur = some (fu, i0)) := by
-  induction h generalizing cur with
-  | nil => simp only [List.foldl_nil] at hr; exact Or.inr ⟨ins, hr⟩
-  | cons t h ih =>
+/-- … and it is the timestamp of an involving commit, or the date of a metadata write that created the account -/
+theorem foldl_accountEventStep_attained (a : String) (ops : List StoreOp) (cur : Option (Int × Int)) (fu ins : Int)
+    (hr : ops.foldl (accountEventStep a) cur = some (fu, ins)) :
+    (∃ t, StoreOp.commit t ∈ ops ∧ t.involves a = true ∧ t.timestamp = fu) ∨
+    (∃ md, StoreOp.saveAccountMeta a fu md ∈ ops) ∨ (∃ i0, cur = some (fu, i0)) := by
+  induction ops generalizing cur with
+  | nil => simp only [List.foldl_nil] at hr; exact Or.inr (Or.inr ⟨ins, hr⟩)
+  | cons o ops ih =>
     simp only [List.foldl_cons] at hr
-    rcases ih _ hr with ⟨x, hx, hxi, hxt⟩ | ⟨i0, hc⟩
+    rcases ih _ hr with ⟨x, hx, hxi, hxt⟩ | ⟨md, hmd⟩ | ⟨i0, hc⟩
     · exact Or.inl ⟨x, List.mem_cons_of_mem _ hx, hxi, hxt⟩
-    · by_cases hi : t.involves a = true
-      · cases cur with
-        | none =>
-          simp [datesStep, hi] at hc
-          exact Or.inl ⟨t, List.mem_cons_self, hi, hc.1⟩
-        | some p =>
-          obtain ⟨f0, j0⟩ := p
-          simp only [datesStep, hi, if_true, Option.some.injEq, Prod.mk.injEq] at hc
-          by_cases hlt : t.timestamp < f0
-          · simp only [hlt, if_true] at hc
+    · exact Or.inr (Or.inl ⟨md, List.mem_cons_of_mem _ hmd⟩)
+    · cases o with
+      | commit t =>
+        simp only [accountEventStep] at hc
+        by_cases hi : t.involves a = true
+        · cases cur with
+          | none =>
+            simp [datesStep, hi] at hc
             exact Or.inl ⟨t, List.mem_cons_self, hi, hc.1⟩
-          · simp only [hlt, if_false] at hc
-            exact Or.inr ⟨j0, by rw [← hc.1]⟩
-      · have hs : datesStep a cur t = cur := by simp [datesStep, hi]
-        rw [hs] at hc
-        exact Or.inr ⟨i0, hc⟩
+          | some p =>
+            obtain ⟨f0, j0⟩ := p
+            simp only [datesStep, hi, if_true, Option.some.injEq, Prod.mk.injEq] at hc
+            by_cases hlt : t.timestamp < f0
+            · simp only [hlt, if_true] at hc
+              exact Or.inl ⟨t, List.mem_cons_self, hi, hc.1⟩
+            · simp only [hlt, if_false] at hc
+              exact Or.inr (Or.inr ⟨j0, by rw [← hc.1]⟩)
+        · have hs : datesStep a cur t = cur := by simp [datesStep, hi]
+          rw [hs] at hc
+          exact Or.inr (Or.inr ⟨i0, hc⟩)
+      | saveAccountMeta a' at_ md =>
+        simp only [accountEventStep] at hc
+        by_cases ha : a' = a
+        · subst ha
+          cases cur with
+          | none =>
+            simp at hc
+            exact Or.inr (Or.inl ⟨md, by rw [← hc.1]; exact List.mem_cons_self⟩)
+          | some p => simp at hc; exact Or.inr (Or.inr ⟨i0, by rw [hc]⟩)
+        · simp only [if_neg ha] at hc
+          exact Or.inr (Or.inr ⟨i0, hc⟩)
+      | lock keys => exact Or.inr (Or.inr ⟨i0, hc⟩)
+      | markReverted id x => exact Or.inr (Or.inr ⟨i0, hc⟩)
 
 end Ledger.Spec
